@@ -94,7 +94,8 @@ def check_and_replay(res, name, c, ov, invariants, properties, own, probe, depth
                      shifts=(0,), before_replay=None, pre=None):
     """(M) TLC on the instance, (C) its whole state graph replayed on the real classes.
 
-    Every edge of the dumped graph is taken (tour_paths) once per rotation of the value kinds in `shifts`, then all
+    Every edge of the dumped graph is taken (tour_paths) once per rotation of the value kinds in `shifts` (within a
+    pass the adapter moves the kinds on by one every second behaviour: adapters/resources.py KINDS), then all
     short paths (from the initial state, or from every just-sealed tree when the instance is phased) and random walks.
     """
     desper = common.import_desper()
@@ -188,11 +189,12 @@ def replay_file(res, path, configs):
     labels = [(n, _untuple(a)) for n, a in blob['detail']['labels']]
     init = blob['detail'].get('init_state')
     start = next((i for i in g.init if tla.to_json(g.states[i]) == init), g.init[0])
-    # which handles had a false truth value in the failing behaviour is not in the file: each mix in turn
-    for mix in range(ra.N_MIXES):
+    # which handles had a false truth value in the failing behaviour, and how far the value kinds had rotated within
+    # the pass, is not in the file: each combination in turn
+    for rot, mix in itertools.product(range(len(ra.KINDS)), range(ra.N_MIXES)):
         st = replay.Stats()
         adapter = ra.ResourcesAdapter(desper, probe=probe, depth=int(c['MaxDepth']), kind_shift=shift,
-                                      keep_snap=int(c['KeepSnap']), mix=mix)
+                                      keep_snap=int(c['KeepSnap']), mix=mix, rot=rot)
         v = replay.walk(g, adapter, labels, own, st, start=start)
         if v:
             st.violations.append(v)
